@@ -156,7 +156,7 @@ class SDVRPEnv(CVRPEnv):
             used_cap += d
             used_cap[a == 0] = 0
             a_prev = a
-        assert (demands == 0).all(), "All demand must be satisfied"
+        assert (demands[:, 1:] == 0).all(), "All demand must be satisfied"
 
     def _make_spec(self, generator):
         """Make the observation and action specs from the parameters."""
